@@ -87,6 +87,99 @@ type Case struct {
 	PW     *PW       `json:"pw,omitempty"`
 	Params []float64 `json:"params,omitempty"`
 	Ys     []ev.F    `json:"ys"`
+	// AsDiscrete hands the distribution over as a stats.DiscreteDist (PMF and Step visible, no
+	// quantile method of its own): whatever use the generic search makes of the step size (the
+	// source carries a TODO to that effect), the result must stay the smallest x with CDF(x)>=y.
+	// Only for kinds that are discrete: binom, hyper, udist, lattice.
+	AsDiscrete bool `json:"as_discrete,omitempty"`
+}
+
+// countedDiscrete is a counted distribution that also shows PMF and Step.
+type countedDiscrete struct {
+	*counted
+	pmf  func(float64) float64
+	step float64
+}
+
+func (c countedDiscrete) PMF(x float64) float64 { return c.pmf(x) }
+func (c countedDiscrete) Step() float64         { return c.step }
+
+// lattice is a user-defined discrete distribution as the DiscreteDist documentation describes
+// it: defined on s*N, here the points s*k0, s*(k0+1), ... with integer weights.
+type lattice struct {
+	pts []float64 // the lattice points carrying the weights, ascending
+	cum []float64 // cumulative weights / total
+	pm  []float64
+	s   float64
+}
+
+func newLattice(params []float64) *lattice {
+	if len(params) < 3 {
+		return nil
+	}
+	s, k0 := params[0], params[1]
+	if !(s > 0) || k0 < 0 || k0 != math.Floor(k0) {
+		return nil
+	}
+	l := &lattice{s: s}
+	total := 0.0
+	for _, w := range params[2:] {
+		if w < 0 || w != math.Floor(w) {
+			return nil
+		}
+		total += w
+	}
+	if total == 0 || params[2] == 0 || params[len(params)-1] == 0 {
+		return nil
+	}
+	run := 0.0
+	for j, w := range params[2:] {
+		run += w
+		l.pts = append(l.pts, s*(k0+float64(j)))
+		l.cum = append(l.cum, run/total)
+		l.pm = append(l.pm, w/total)
+	}
+	return l
+}
+
+// at returns the index of the largest lattice point <= x, or -1.
+func (l *lattice) at(x float64) int { return sort.Search(len(l.pts), func(i int) bool { return l.pts[i] > x }) - 1 }
+
+func (l *lattice) cdf(x float64) float64 {
+	if i := l.at(x); i >= 0 {
+		return l.cum[i]
+	}
+	return 0
+}
+
+func (l *lattice) pmf(x float64) float64 {
+	if i := l.at(x); i >= 0 && x < l.pts[i]+l.s {
+		return l.pm[i]
+	}
+	return 0
+}
+
+// dist returns what is handed to the library: the counted wrapper, with PMF and Step for
+// AsDiscrete cases.
+func dist(c *Case, w *counted) stats.DistCommon {
+	if !c.AsDiscrete {
+		return w
+	}
+	switch c.Kind {
+	case "binom":
+		d := stats.BinomialDist{N: int(c.Params[0]), P: c.Params[1]}
+		return countedDiscrete{w, d.PMF, d.Step()}
+	case "hyper":
+		d := stats.HypergeometicDist{N: int(c.Params[0]), K: int(c.Params[1]), Draws: int(c.Params[2])}
+		return countedDiscrete{w, d.PMF, d.Step()}
+	case "udist":
+		d := stats.UDist{N1: int(c.Params[0]), N2: int(c.Params[1])}
+		return countedDiscrete{w, d.PMF, d.Step()}
+	case "lattice":
+		l := newLattice(c.Params)
+		return countedDiscrete{w, l.pmf, l.s}
+	}
+	return w
 }
 
 func build(c *Case) (*counted, string) {
@@ -117,8 +210,17 @@ func build(c *Case) (*counted, string) {
 		d := &stats.KDE{Sample: stats.Sample{Xs: append([]float64(nil), c.Params[1:]...)}, Kernel: stats.GaussianKernel, Bandwidth: c.Params[0]}
 		w.cdf = d.CDF
 		w.lo, w.hi = d.Bounds()
+	case "lattice":
+		l := newLattice(c.Params)
+		if l == nil {
+			return nil, "invalid lattice"
+		}
+		w.cdf, w.lo, w.hi = l.cdf, l.pts[0], l.pts[len(l.pts)-1]
 	default:
 		return nil, "unknown kind"
+	}
+	if c.AsDiscrete && c.Kind != "binom" && c.Kind != "hyper" && c.Kind != "udist" && c.Kind != "lattice" {
+		return nil, "as_discrete on a kind that is not discrete"
 	}
 	return w, ""
 }
@@ -130,7 +232,7 @@ var checkInv = ev.Register("invcdf", func(c *Case) ev.Outcome {
 	if w == nil {
 		return ev.Fail("harness error: %s", msg)
 	}
-	inv := stats.InvCDF(w)
+	inv := stats.InvCDF(dist(c, w))
 	ys := ev.Floats(c.Ys)
 	// every case also probes the floats adjacent to the ends of [0,1] from outside
 	ys = append(ys, math.Nextafter(1, 2), 1+0x1p-51, -5e-324, -0x1p-1022, math.Inf(1), math.Inf(-1))
@@ -184,6 +286,9 @@ var checkInv = ev.Register("invcdf", func(c *Case) ev.Outcome {
 		nt = true
 	}
 	classes := []string{c.Kind}
+	if c.AsDiscrete {
+		classes = append(classes, "handed-over-as-DiscreteDist")
+	}
 	if c.Kind == "pw" {
 		jump, flat := false, false
 		for i := range c.PW.Xs {
@@ -323,7 +428,7 @@ var checkRand = ev.Register("rand", func(c *RandCase) ev.Outcome {
 		return rand.New(&script{vals: c.Script, rest: rand.NewSource(c.Seed)})
 	}
 	// the CDF-call budget applies to each draw / inversion separately
-	rawDraw, rawInv := stats.Rand(w), stats.InvCDF(w)
+	rawDraw, rawInv := stats.Rand(dist(&c.Dist, w)), stats.InvCDF(dist(&c.Dist, w))
 	draw := func(r *rand.Rand) float64 { w.n = 0; return rawDraw(r) }
 	inv := func(y float64) float64 { w.n = 0; return rawInv(y) }
 	r1, r2 := mk(), mk()
@@ -540,9 +645,25 @@ func drawDist(t *rapid.T) *Case {
 		for i := 0; i < n; i++ {
 			c.Params = append(c.Params, centre+rapid.Float64Range(-3, 3).Draw(t, "x"))
 		}
+	case 4:
+		// a user-defined lattice distribution: points s*k0 .. s*(k0+m-1), integer weights
+		c.Kind = "lattice"
+		c.Params = []float64{rapid.SampledFrom([]float64{2, 3, 1, 0.5, 1.5, 0.1, 0.25, 7, 10, 1e-3, 1000}).Draw(t, "step"),
+			float64(rapid.SampledFrom([]int{0, 0, 1, 2, 3, 5, 8, 13, 40, 1000}).Draw(t, "k0"))}
+		m := rapid.IntRange(1, 24).Draw(t, "m")
+		for j := 0; j < m; j++ {
+			wgt := rapid.IntRange(0, 5).Draw(t, "wgt")
+			if (j == 0 || j == m-1) && wgt == 0 {
+				wgt = 1
+			}
+			c.Params = append(c.Params, float64(wgt))
+		}
 	default:
 		c.Kind = "pw"
 		c.PW = drawPW(t)
+	}
+	if c.Kind == "binom" || c.Kind == "hyper" || c.Kind == "udist" || c.Kind == "lattice" {
+		c.AsDiscrete = rapid.Bool().Draw(t, "asDiscrete")
 	}
 	return c
 }
@@ -559,6 +680,8 @@ func levelsOf(c *Case) []float64 {
 		for k := w.lo; k <= w.hi; k += 0.5 {
 			levels = append(levels, w.cdf(k))
 		}
+	case "lattice":
+		levels = append(levels, newLattice(c.Params).cum...)
 	}
 	var out []float64
 	for _, l := range levels {
